@@ -276,6 +276,27 @@ impl<'a> Checker<'a> {
                 self.fail("child_index", i, "child_index(child, parent) is Some".to_string());
             }
         }
+        // attribute and namespace nodes are not children; neither are the node itself, grandchildren or nodes elsewhere
+        for k in t.v[i].attrs.iter().chain(t.v[i].nss.iter()) {
+            self.checks += 1;
+            match guard(|| x.child_index(h, t.v[*k].h)) {
+                Ok(None) => {}
+                other => self.fail("child_index", i, format!("child_index(element, its attribute / namespace node) returned {:?}", other.ok())),
+            }
+        }
+        let stride = (doc_order.len() / 64).max(1);
+        for j in doc_order.iter().copied().step_by(stride) {
+            if t.v[j].parent != Some(i) {
+                self.checks += 1;
+                match guard(|| x.child_index(h, t.v[j].h)) {
+                    Ok(None) => {}
+                    other => {
+                        self.fail("child_index", i, format!("child_index(n, a node that is not a child of n) returned {:?}", other.ok()));
+                        break;
+                    }
+                }
+            }
+        }
         let sub_ord = t.subtree_ord(i);
         self.list("descendants", i, guard(|| collect(x.descendants(h), n)), t.hs(&sub_ord));
         self.list("axis(DescendantOrSelf)", i, guard(|| collect(x.axis(Axis::DescendantOrSelf, h), n)), t.hs(&sub_ord));
